@@ -2926,7 +2926,10 @@ impl platform::Symbol for SymtabEntry {
     }
 
     fn is_hidden(&self) -> bool {
-        self.st_visibility() == object::elf::STV_HIDDEN
+        matches!(
+            self.st_visibility(),
+            object::elf::STV_HIDDEN | object::elf::STV_INTERNAL
+        )
     }
 
     fn is_gnu_unique(&self) -> bool {
@@ -2947,7 +2950,9 @@ impl platform::Symbol for SymtabEntry {
 pub(crate) fn convert_elf_visibility(st_visibility: u8) -> Visibility {
     match st_visibility {
         object::elf::STV_PROTECTED => Visibility::Protected,
-        object::elf::STV_HIDDEN => Visibility::Hidden,
+        // STV_INTERNAL is at least as restrictive as STV_HIDDEN: such symbols are never visible outside
+        // the component that defines them.
+        object::elf::STV_HIDDEN | object::elf::STV_INTERNAL => Visibility::Hidden,
         _ => Visibility::Default,
     }
 }
